@@ -162,4 +162,34 @@ class C02(Prop):
             v.add_divergence(sig, list(feats), cnt, exs)
 
 
-PROPS = {"C02": C02(), "C01": C01(), "C05": C05(), "C06": C06(), "C20": C20(), "C19": C19(), "C17": C17(), "C18": C18()}
+class C04(Prop):
+    cmd = "c04"
+    cases = {"quick": 120, "thorough": 3000}
+    rule = ("every non-empty corpus file and generated workbooks (C02 generator): two saves of the unchanged object, three load/save "
+            "generations (standard and light writer), one random single-cell edit on the loaded workbook; distinct by hash of the original's dump")
+    assumptions = ["oracle: strict equality of the full public-getter dumps of successive generations; orig~gen1 under the documented normal form "
+                   "(font None vs Some is a wildcard because None means 'font 0 of that file'; a column entry carrying only the default width is not a setting)",
+                   "'same parts and same content' for two consecutive saves = equal part lists and equal dumps after loading each file (byte order of order-insensitive tables may differ)",
+                   "a new cell created by the edit may take the formatting of its row/column"]
+
+
+class C12(Prop):
+    cmd = "c12"
+    cases = {"quick": 600, "thorough": 12000}
+    rule = ("histories of 4-30 operations over up to 4 workbook objects (set / overwrite / delete text and rich text, remove rows, columns, "
+            "sheets, clone, reload-and-continue, save with either writer); every string carries a unique id; non-trivial = at least one save; "
+            "distinct by hash of the history")
+    assumptions = ["oracle: shared string table and str/inline cell texts read by monitors/xlsx_decode.py vs the text / rich-text values reachable through getters at save time"]
+
+    def post(self, v, res, out, tier, seed):
+        sys.path.insert(0, os.path.join(vlib.VERIF, "monitors"))
+        import c12_check
+        n, strings, groups = c12_check.check(out)
+        v.observations = n
+        v.counters["files_checked"] = n
+        v.counters["stored_strings_checked"] = strings
+        for sig, (cnt, exs) in groups.items():
+            v.add_divergence(sig, [], cnt, exs)
+
+
+PROPS = {"C04": C04(), "C12": C12(), "C02": C02(), "C01": C01(), "C05": C05(), "C06": C06(), "C20": C20(), "C19": C19(), "C17": C17(), "C18": C18()}
